@@ -74,6 +74,23 @@ def paths(f, body, max_visits=2, cut_at_yield=False, max_paths=50000, inline=Tru
     return _cache[key]
 
 
+def paths_keeping(f, body, opaque, max_visits=2):
+    """Paths of `body` with its crate-private helpers - async ones too - looked through, except the functions whose def paths are in
+    `opaque`: those stay calls a rule can name (the function the rule is about may itself be crate-private)."""
+    key = (id(f), body.path, max_visits, "keeping", tuple(sorted(opaque)))
+    if key not in _cache:
+        base = default_inline(f, allow_async=True)
+
+        def pol(fn):
+            r = fn.get("resolved") or {}
+            path = r.get("path") if r.get("kind") == "item" else fn["path"]
+            return path not in opaque and base(fn)
+        s = Sym(f, max_visits=max_visits, max_paths=50000, inline=pol, inline_depth=3)
+        s.inline_async = True
+        _cache[key] = s.paths(body)
+    return _cache[key]
+
+
 def is_poll(ev):
     """Poll of a future (the callee is a coroutine body `..::{closure#N}` or a Future::poll impl), not the call that made it."""
     return ev.kind == "call" and (ev.name.endswith("}") or short(ev.name) in ("poll", "poll_next", "poll_unpin", "poll_next_unpin"))
